@@ -1142,6 +1142,56 @@ func checkWindow(e *Env, p *load.Program) {
 	}
 }
 
+// sameStableField: a (read inside the loop) and b (the sequence the loop ranges over) are loads of the same field of the
+// same object (`p.Syscalls` spelled twice; go/ssa does not share the loads), the function never stores to that field, and
+// nothing in the loop receives the object, so both loads yield the same slice header.
+func sameStableField(a, b ssa.Value, l *flow.CountedLoop) bool {
+	la, ok1 := a.(*ssa.UnOp)
+	lb, ok2 := b.(*ssa.UnOp)
+	if !ok1 || !ok2 || la.Op != token.MUL || lb.Op != token.MUL {
+		return false
+	}
+	fa, ok1 := la.X.(*ssa.FieldAddr)
+	fb, ok2 := lb.X.(*ssa.FieldAddr)
+	if !ok1 || !ok2 || fa.Field != fb.Field || fa.X != fb.X {
+		return false
+	}
+	base := fa.X
+	fn := la.Parent()
+	for _, blk := range fn.Blocks {
+		for _, in := range blk.Instrs {
+			switch x := in.(type) {
+			case *ssa.Store:
+				if f2, ok := x.Addr.(*ssa.FieldAddr); ok && f2.X == base && f2.Field == fa.Field {
+					return false
+				}
+				if x.Addr == base {
+					return false
+				}
+			case ssa.CallInstruction:
+				if !l.Contains(blk) {
+					continue
+				}
+				for _, arg := range x.Common().Args {
+					if arg == base {
+						return false
+					}
+				}
+				if x.Common().IsInvoke() && x.Common().Value == base {
+					return false
+				}
+			case *ssa.MakeClosure:
+				for _, bnd := range x.Bindings {
+					if bnd == base {
+						return false
+					}
+				}
+			}
+		}
+	}
+	return true
+}
+
 // indexInCountedLoop: the instruction indexes the slice a counted loop ranges over with an expression that stays in
 // range for every iteration: i (0 <= i < len) or len-1-i.
 func indexInCountedLoop(in ssa.Instruction) (string, bool) {
@@ -1158,7 +1208,7 @@ func indexInCountedLoop(in ssa.Instruction) (string, bool) {
 		if !l.Contains(in.Block()) || in.Block() == l.Header {
 			continue
 		}
-		if x != l.Over {
+		if x != l.Over && !sameStableField(x, l.Over, l) {
 			continue
 		}
 		// the slice must not be re-assigned: l.Over is one SSA value (a parameter or a value defined before the loop)
